@@ -115,6 +115,14 @@ def _char_col(lines, lineno, col):
     return len(line.encode('utf-8')[:col].decode('utf-8', 'ignore'))
 
 
+def _inverted(nm):
+    """evidence only: some alternative is declared textually earlier but becomes visible later than another one
+    (`for x in f((x := v())):`), so visibility order and source order of the alternatives differ."""
+    vn = [x for x in nm.valid_names if getattr(x, 'declared_at', None)]
+    by_vis = [tuple(x.declared_at) for x in sorted(vn, key=lambda x: tuple(x.location))]
+    return by_vis != sorted(by_vis)
+
+
 def prescan(part, text, filename, project):
     """SELECTION ONLY (never a verdict): run the real analysis once and list the name reads whose table entry is a
     multiply-bound name, the `self.a` reads of attributes assigned in several places, and how many module-level names
@@ -133,7 +141,15 @@ def prescan(part, text, filename, project):
                 nm = n.flow.names_at(np(n)).get(n.id)
                 if type(nm) is MultiName and len(nm.valid_names) >= 2:
                     cands.append({'pos': [n.lineno, _char_col(lines, n.lineno, n.col_offset) + len(n.id)],
-                                  'name': n.id, 'nalt': len(nm.valid_names), 'what': 'name'})
+                                  'name': n.id, 'nalt': len(nm.valid_names), 'what': 'name',
+                                  'inverted': _inverted(nm)})
+            elif (isinstance(n, ast.Attribute) and isinstance(n.ctx, ast.Load) and isinstance(n.value, ast.Name)
+                  and hasattr(n.value, 'flow') and n.end_lineno == n.value.lineno):
+                nm = n.value.flow.names_at(np(n.value)).get(n.value.id)
+                if type(nm) is MultiName and len(nm.valid_names) >= 2:
+                    cands.append({'pos': [n.end_lineno, _char_col(lines, n.end_lineno, n.end_col_offset)],
+                                  'name': n.value.id + '.' + n.attr, 'nalt': len(nm.valid_names),
+                                  'what': 'attr-of-multi'})
         nme = 0
         for k, v in scope.names.items():
             if type(v) is MultiName and len(v.valid_names) >= 2:
@@ -178,7 +194,7 @@ def pick_candidates(rng, cands, k):
     rng.shuffle(cands)
     seen = set()
     first, later = [], []
-    for c in sorted(cands, key=lambda c: -min(c['nalt'], 5)):
+    for c in sorted(cands, key=lambda c: (not c.get('inverted'), -min(c['nalt'], 5))):
         (later if c['name'] in seen else first).append(c)
         seen.add(c['name'])
     return (first + later)[:k]
@@ -351,6 +367,224 @@ def gen_multiattr(rng):
     return files, reqs
 
 
+# --- generated modules for two regions the other generators hardly reach ---------------------------------------
+
+MC_POOL = ('run', 'stop', 'name', 'size', 'value', 'kind')
+MC_HELPERS = 'def q():\n    return True\n\n\ndef it():\n    return []\n\n\n'
+
+
+def gen_multiclass(rng):
+    """2-4 classes that define overlapping method / attribute names; variables bound in if/elif/else, try/except and
+    loop branches to instances, classes and call results of single-return functions of DIFFERENT ones; in functions
+    and at module level; the classes in the same module or imported from another project module.
+    -> (files, [(relfile, text, pos, op, expr, forced)])  where each text is the file with one query line in place."""
+    ncls = rng.randint(2, 4)
+    cnames = ['A', 'B', 'C', 'D'][:ncls]
+    shared = rng.sample(MC_POOL, rng.randint(2, 3))
+    lib = [MC_HELPERS]
+    vals = list(MA_VALUES)
+    defines = {}
+    for c in cnames:
+        own = list(shared)
+        if rng.random() < 0.5:
+            own.append(rng.choice([x for x in MC_POOL if x not in shared]))
+        if rng.random() < 0.3 and len(own) > 2:
+            own.remove(rng.choice(shared))          # not every class has every name
+        defines[c] = own
+        body = ['class %s(object):' % c]
+        init = []
+        for a in own:
+            form = rng.random()
+            if form < 0.4:
+                body += ['    def %s(self):' % a, '        return %s' % rng.choice(vals), '']
+            elif form < 0.8:
+                body.append('    %s = %s' % (a, rng.choice(vals)))
+            else:
+                init.append('        self.%s = %s' % (a, rng.choice(vals)))
+        if init:
+            body += ['    def __init__(self):'] + init + ['']
+        lib += ['\n'.join(body), '\n\n', 'def make_%s():\n    return %s()\n\n\n' % (c, c)]
+    libtext = ''.join(lib)
+    layout = rng.choice(('same', 'from', 'module'))
+    if layout == 'same':
+        head, prefix = libtext, ''
+    elif layout == 'from':
+        head = 'from shapes import q, it, %s\n\n' % ', '.join(cnames + ['make_' + c for c in cnames])
+        prefix = ''
+    else:
+        head, prefix = 'import shapes\nfrom shapes import q, it\n\n', 'shapes.'
+
+    def expr(c):
+        k = rng.random()
+        return prefix + ('%s()' % c if k < 0.6 else 'make_%s()' % c if k < 0.85 else c)
+
+    units = []          # (lines, placeholder index, var, classes used)
+    out = [head]
+    lines = head.split('\n')[:-1]
+    queries = []
+    for u in range(rng.randint(2, 4)):
+        var = 'x%d' % u
+        infunc = rng.random() < 0.5
+        ind = '    ' if infunc else ''
+        used = rng.sample(cnames, rng.randint(2, ncls))
+        form = rng.choice(('if', 'if', 'try', 'for', 'while'))
+        blk = ['def f%d(flag=None):' % u] if infunc else []
+        e = [expr(c) for c in used]
+        if form == 'if':
+            blk.append(ind + 'if q():')
+            blk.append(ind + '    %s = %s' % (var, e[0]))
+            for x in e[1:-1]:
+                blk += [ind + 'elif q():', ind + '    %s = %s' % (var, x)]
+            blk += [ind + 'else:', ind + '    %s = %s' % (var, e[-1])]
+        elif form == 'try':
+            blk += [ind + 'try:', ind + '    %s = %s' % (var, e[0])]
+            for x, exc in zip(e[1:], ('ValueError', 'KeyError', 'OSError')):
+                blk += [ind + 'except %s:' % exc, ind + '    %s = %s' % (var, x)]
+        elif form == 'for':
+            blk += [ind + '%s = %s' % (var, e[0]), ind + 'for _i in it():']
+            for n, x in enumerate(e[1:]):
+                if n:
+                    blk += [ind + '    if q():', ind + '        %s = %s' % (var, x)]
+                else:
+                    blk.append(ind + '    %s = %s' % (var, x))
+        else:
+            blk += [ind + '%s = %s' % (var, e[0]), ind + 'while q():', ind + '    %s = %s' % (var, e[1])]
+            for x in e[2:]:
+                blk += [ind + 'if q():', ind + '    %s = %s' % (var, x)]
+        lines += blk
+        slot = len(lines)
+        lines += [ind + 'pass', '', '']
+        for a in sorted(set(x for c in used for x in defines[c])):
+            k = sum(1 for c in used if a in defines[c])
+            queries.append((slot, ind, '%s.%s' % (var, a), 'location', k >= 2))
+            queries.append((slot, ind, '%s.%s.' % (var, a), 'assist', False))
+        queries.append((slot, ind, '%s.' % var, 'assist', False))
+        queries.append((slot, ind, var, 'location', False))
+    files = {'user.py': '\n'.join(lines) + '\n'}
+    if layout != 'same':
+        files['shapes.py'] = libtext
+    reqs = []
+    for slot, ind, ex, op, forced in queries:
+        ql = list(lines)
+        ql[slot] = ind + ex
+        reqs.append(('user.py', '\n'.join(ql) + '\n', (slot + 1, len(ind + ex)), op, ex, forced))
+    return files, reqs
+
+
+INV_TEMPLATES = (
+    ('for-walrus', 'for {n} in it(({n} := v())):\n    v({n})'),
+    ('for-listcomp', 'for {n} in [{n} for {n} in it() if {n}]:\n    v({n})'),
+    ('for-genexp', 'for {n} in ({n} for {n} in it()):\n    pass'),
+    ('for-dictcomp', 'for {n} in {{{n}: 1 for {n} in it()}}:\n    pass'),
+    ('for-tuple-walrus', 'for a_, {n} in it(({n} := v())):\n    pass'),
+    ('for-lambda-default', 'for {n} in it(lambda {n}=({n} := v()): {n}):\n    pass'),
+    ('for-nested', 'for {n} in it():\n    for {n} in it(({n} := v())):\n        pass'),
+    ('try-for-walrus', 'try:\n    for {n} in it(({n} := v())):\n        pass\nexcept ValueError:\n    {n} = v()'),
+    ('assign-listcomp', 'if q():\n    {n} = [{n} for {n} in it()]'),
+    ('assign-setcomp', 'if q():\n    {n} = {{{n} for {n} in it()}}'),
+    ('annassign-comp', 'if q():\n    {n}: list = [{n} for {n} in it()]'),
+    ('with-walrus', 'if q():\n    with cm(({n} := v())) as {n}:\n        pass\nelse:\n    {n} = v()'),
+    ('with-comp', 'if q():\n    with cm([{n} for {n} in it()]) as {n}:\n        pass'),
+    ('while-walrus', 'while ({n} := q()):\n    if q():\n        break\n    {n} = v()'),
+    ('assign-walrus-value', 'if q():\n    {n} = v(({n} := v()))\nelse:\n    {n} = v()'),
+)
+INV_HELPERS = ('def v(*a, **k):\n    return object()\n\n\ndef q(*a):\n    return True\n\n\ndef it(*a):\n    return []\n\n\n'
+               'class cm(object):\n    def __init__(self, *a):\n        pass\n\n    def __enter__(self):\n        return self\n\n'
+               '    def __exit__(self, *a):\n        return False\n\n\n')
+
+
+def gen_inverted(rng):
+    """one statement holding two bindings of the same identifier whose visibility order is the reverse of their
+    textual order (walrus / comprehension target inside a for-iterable, a with-item, a while-test, the value of an
+    assignment to the same name), joined with other bindings, read after the join; a second module imports the names.
+    -> (files, templates used); the requests are found by the pre-scan of inv.py plus the reads in user.py"""
+    idents = ['x', 'y', 'z', 'w', 'name', 'item']
+    rng.shuffle(idents)
+    body = [INV_HELPERS]
+    used = []
+    exported = []
+    for n in idents[:rng.randint(2, 4)]:
+        kind, t = rng.choice(INV_TEMPLATES)
+        used.append(kind)
+        infunc = rng.random() < 0.35
+        blk = []
+        if rng.random() < 0.4:
+            blk.append('if q():\n    {n} = v()'.format(n=n))
+        blk.append(t.format(n=n))
+        if rng.random() < 0.3:
+            blk.append('if q():\n    {n} = v()'.format(n=n))
+        blk.append('v({n})\n{n}'.format(n=n))
+        text = '\n'.join(blk)
+        if infunc:
+            text = 'def f_%s():\n' % n + '\n'.join('    ' + l for l in text.split('\n'))
+        else:
+            exported.append(n)
+        body.append(text + '\n\n')
+    files = {'inv.py': ''.join(body)}
+    if exported:
+        files['user.py'] = 'from inv import %s\nimport inv\n%s\n' % (
+            ', '.join(exported), '\n'.join('%s\ninv.%s' % (n, n) for n in exported))
+    return files, used, exported
+
+
+def build_gextra(part, rng, bdir, arg):
+    from supp.project import Project
+    b = Batch()
+    for j in range(arg['multiclass']):
+        files, reqs = gen_multiclass(rng)
+        pid = 'k%d' % j
+        root = os.path.join(bdir, pid)
+        write_files(root, files)
+        part.count('multiclass_projects_generated')
+        b.projects[pid] = {'roots': [root], 'root': root, 'files': files}
+        meta = {'source': 'gmulticlass', 'own_files': None}
+        for rel, text, pos, op, ex, forced in reqs:
+            b.add(op, pid, text, pos, os.path.join(root, rel), force_domain=forced,
+                  cand={'name': ex, 'what': 'attr-of-multi' if '.' in ex else 'name', 'nalt': 2 if forced else 0}, **meta)
+        for rel, text in sorted(files.items()):
+            b.add('lint', pid, text, None, os.path.join(root, rel), **meta)
+            b.add('members', pid, module=rel[:-3], mtext=text, multi_exports=0, **meta)
+    for j in range(arg['inverted']):
+        files, used, exported = gen_inverted(rng)
+        pid = 'i%d' % j
+        root = os.path.join(bdir, pid)
+        write_files(root, files)
+        part.count('inverted_visibility_projects_generated')
+        for k in used:
+            part.hist('inverted_visibility_templates', k)
+        b.projects[pid] = {'roots': [root], 'root': root, 'files': files}
+        proj = Project([root])
+        meta = {'source': 'ginverted', 'own_files': None}
+        text = files['inv.py']
+        filename = os.path.join(root, 'inv.py')
+        sc = prescan(part, text, filename, proj)
+        nme = 0
+        if sc is not None:
+            nme = sc[2]
+            for n, c in enumerate(pick_candidates(rng, [c for c in sc[1] if c['what'] == 'name'], 10)):
+                b.add('location', pid, text, c['pos'], filename, cand=c, **meta)
+                if n % 3 == 0:
+                    b.add('assist', pid, text, c['pos'], filename, cand=c, **meta)
+        b.add('lint', pid, text, None, filename, **meta)
+        b.add('members', pid, module='inv', mtext=text, multi_exports=nme, **meta)
+        if 'user.py' in files:
+            utext = files['user.py']
+            ufile = os.path.join(root, 'user.py')
+            ulines = utext.split('\n')
+            col = len('from inv import ')
+            for n in exported:          # the imported names on the import line, then the reads
+                b.add('location', pid, utext, (1, col + len(n)), ufile, force_domain=True,
+                      cand={'name': 'from inv import ' + n, 'what': 'import-of-multi', 'nalt': 2}, **meta)
+                col += len(n) + 2
+            for ln, line in enumerate(ulines[2:], 3):
+                if line:
+                    b.add('location', pid, utext, (ln, len(line)), ufile, force_domain=True,
+                          cand={'name': line, 'what': 'import-of-multi' if '.' not in line else 'attr-of-module',
+                                'nalt': 2}, **meta)
+            b.add('members', pid, module='user', mtext=utext, multi_exports=0, **meta)
+    return b
+
+
 def _module_name(path, root):
     rel = os.path.relpath(path, root)
     if rel.startswith('..') or not rel.endswith('.py'):
@@ -391,7 +625,9 @@ def build_real(part, rng, bdir, arg):
             tree, cands, nme = sc
             names = [c for c in cands if c['what'] == 'name']
             attrs = [c for c in cands if c['what'] == 'self-attr']
-            chosen = pick_candidates(rng, names, nreq) + pick_candidates(rng, attrs, max(1, nreq // 4))
+            through = [c for c in cands if c['what'] == 'attr-of-multi']
+            chosen = (pick_candidates(rng, names, nreq) + pick_candidates(rng, attrs, max(1, nreq // 4)) +
+                      pick_candidates(rng, through, max(1, nreq // 3)))
             if not chosen:
                 part.count('real_files_without_multiply_bound_read')
             for n, c in enumerate(chosen):
@@ -417,10 +653,16 @@ def in_domain(req, meta, ans):
     """the property's quantifier: answers with more than one alternative / more than one element."""
     if 'exc' in ans:
         # no answer to count: kept only where the selection scan saw a multiply-bound name (type compared)
-        return req['op'] == 'location' and bool(meta.get('cand')) and meta['cand'].get('nalt', 0) >= 2
+        return req['op'] == 'location' and (bool(meta.get('force_domain')) or
+                                            (bool(meta.get('cand')) and meta['cand'].get('nalt', 0) >= 2))
     r = ans['r']
     if req['op'] == 'location':
-        return any(len(x) >= 2 for x in nested_lists(ans))
+        if any(len(x) >= 2 for x in nested_lists(ans)):
+            return True
+        # an attribute reached through a multiply-bound name (x.attr, x bound to values of several classes) or an
+        # import of a multiply-bound module member: the single entry reported is a pick among several alternatives
+        c = meta.get('cand') or {}
+        return bool(r) and (bool(meta.get('force_domain')) or (c.get('what') == 'attr-of-multi' and c.get('nalt', 0) >= 2))
     if req['op'] == 'assist':
         return len(r[1]) > 1
     if req['op'] == 'lint':
@@ -463,8 +705,8 @@ def _flat(r):
     return out
 
 
-def classify(op, answers):
-    """mechanism label from WHAT differs between the distinct answers of one request."""
+def classify(op, answers, what=''):
+    """mechanism label from WHAT differs between the distinct answers of one request (and what kind of request it is)."""
     excs = [a.get('exc') for a in answers]
     if any(excs):
         if all(excs):
@@ -485,12 +727,18 @@ def classify(op, answers):
                 return 'location-alternatives-order-varies'
         if len(set(tuple(sorted(_flat(r))) for r in rs)) == 1:
             return 'location-entries-order-varies'
+        if what == 'attr-of-multi':
+            return 'location-attribute-through-multiply-bound-name-varies'
+        if what == 'import-of-multi':
+            return 'location-import-of-multiply-bound-member-varies'
         return 'location-content-differs'
     if op == 'assist':
         if len(set(r[0] for r in rs)) != 1:
             return 'assist-prefix-varies'
         if len(set(tuple(sorted(r[1])) for r in rs)) == 1:
             return 'assist-proposals-order-varies'
+        if what == 'attr-of-multi':
+            return 'assist-attribute-through-multiply-bound-name-varies'
         return 'assist-proposals-vary'
     if op == 'lint':
         if len(set(tuple(sorted(json.dumps(x) for x in r)) for r in rs)) == 1:
@@ -590,11 +838,23 @@ def compare_batch(part, b, passes, runs, spans_of):
         if 'exc' in first:
             part.count('requests_answered_by_exception(type compared)')
             part.hist('exception_types', '%s:%s' % (op, first['exc']))
+        what = (m.get('cand') or {}).get('what', '').split(':')[0]
+        if what == 'attr-of-multi' and (op == 'assist' or m.get('force_domain') or (m.get('cand') or {}).get('nalt', 0) >= 2):
+            part.count('requests_attribute_through_multiply_bound_name')
+            part.hist('attribute_through_multiply_bound_name', '%s:%s' % ((m.get('source') or '?').split(':')[0], op))
+            if m.get('force_domain'):
+                part.count('requests_attribute_defined_by_2+_alternative_classes')
+                nontrivial = True
+        elif what == 'import-of-multi':
+            part.count('requests_import_of_multiply_bound_member')
+            nontrivial = True
         if op == 'location':
             nl = nested_lists(first)
             if any(len(x) >= 2 for x in nl):
                 part.count('requests_multi_alternative')
                 nontrivial = True
+                if (m.get('cand') or {}).get('inverted'):
+                    part.count('multi_alternative_requests_with_inverted_visibility_order')
                 for x in nl:
                     part.hist('alternatives_per_list', min(len(x), 8))
                     if len(x) >= 3:
@@ -643,7 +903,7 @@ def compare_batch(part, b, passes, runs, spans_of):
             part.count('same_process_pairs_compared')
             pa, pb = passes[0][1][i], passes[1][1][i]
             if pa != pb:
-                mech = classify(op, [json.loads(pa), json.loads(pb)])
+                mech = classify(op, [json.loads(pa), json.loads(pb)], what)
                 case = b.case_of(i)
                 case.update({'check': 'same-process', 'outputs': {'pass-A': pa, 'pass-B': pb}})
                 part.violation(mech, '%s: two passes over the same batch in ONE process answer differently: %s  vs  %s' % (
@@ -656,7 +916,7 @@ def compare_batch(part, b, passes, runs, spans_of):
             part.count('cross_process_comparisons', len(pouts) - 1)
             pd = sorted(set(pouts))
             if len(pd) > 1:
-                mech = classify(op, [json.loads(o) for o in pd])
+                mech = classify(op, [json.loads(o) for o in pd], what)
                 groups = collections.OrderedDict()
                 for cfg, o in runs:
                     groups.setdefault(o[i], []).append(cfg_label(cfg))
@@ -761,6 +1021,8 @@ def work(arg):
             batch = build_gprog(part, rng, bdir, arg)
         elif kind == 'gclass':
             batch = build_gclass(part, rng, bdir, arg)
+        elif kind == 'gextra':
+            batch = build_gextra(part, rng, bdir, arg)
         else:
             batch = build_real(part, rng, bdir, arg)
         run_batch(part, rng, batch, bdir, arg, tag)
@@ -776,8 +1038,10 @@ RULE = ('case = one request (operation, text, position / module) in the property
         '> 1 rows, a module with > 1 members; every case is answered twice in one process and once in each of 6/16 '
         'fresh processes with different PYTHONHASHSEED / prior allocation, outputs compared byte-wise, the ordering '
         'predicate evaluated on every distinct location answer.  non-trivial = a location() answer with a list of >= 2 '
-        'alternative definitions, or the members of a module in which at least one module-level name is multiply '
-        'bound, compared over >= 2 fresh processes; distinct by (operation, text, position/module)')
+        'alternative definitions, an attribute reached through a name bound to instances of >= 2 classes that define '
+        'it, an import of a multiply-bound module member, or the members of a module in which at least one '
+        'module-level name is multiply bound, compared over >= 2 fresh processes; distinct by (operation, text, '
+        'position/module).  location() answers without a list are in the domain only for those attribute / import requests')
 
 
 def main(run):
@@ -796,6 +1060,8 @@ def main(run):
             args.append({'kind': 'gprog', 'index': n, 'target': 200, 'max_cases': 70})
         for n in range(run.pick(6, 14)):
             args.append({'kind': 'gclass', 'index': n, 'target': 900, 'max_cases': 14, 'multiattr': 30})
+        for n in range(run.pick(4, 12)):
+            args.append({'kind': 'gextra', 'index': n, 'multiclass': 10, 'inverted': 14})
         for a in args:
             a.update({'seed': run.seed, 'tmp': tmp, 'children': k})
         core.run_parts(run, 'vf.props.c17:work', args, timeout=2400)
@@ -807,6 +1073,8 @@ def main(run):
         require=('requests', 'requests_multi_alternative', 'alternative_lists_3+', 'children',
                  'distinct_hashseed_garbage_configurations', 'cross_process_comparisons',
                  'same_process_pairs_compared', 'ordering_predicate_evaluations', 'module_member_requests',
+                 'requests_attribute_defined_by_2+_alternative_classes', 'requests_import_of_multiply_bound_member',
+                 'multi_alternative_requests_with_inverted_visibility_order',
                  'module_member_requests_with_multiply_bound_export', 'assist_requests', 'lint_requests'),
         assumptions=[
             'every process that evaluates a batch sees the same request sequence on Project objects created at first use, '
